@@ -24,4 +24,60 @@ def shrink(plan):
                     c = copy.deepcopy(plan)
                     c["items"][si][k] = v
                     yield c
+    # dictionaries: drop entries (at any depth), simplify the structures they hold
+    def nodes(d, path):
+        """yield (path to a dict node, node) for the generated dictionary description d"""
+        yield path, d
+        for name in sorted(d):
+            v = d[name]["val"]
+            if "d" in v:
+                yield from nodes(v["d"], path + [name, "val", "d"])
+
+    def at(root, path):
+        for p in path:
+            root = root[p]
+        return root
+
+    for di, dd in enumerate(plan.get("dicts", [])):
+        for path, node in nodes(dd, []):
+            if len(node) > 1 or path:
+                for name in sorted(node):
+                    if len(node) == 1 and not path:
+                        continue
+                    c = copy.deepcopy(plan)
+                    del at(c["dicts"][di], path)[name]
+                    if at(c["dicts"][di], path) or path:
+                        yield c
+            for name in sorted(node):
+                v = node[name]["val"]
+                structs = []
+                if "v" in v:
+                    structs.append(["v"])
+                if "l" in v:
+                    structs.append(["l", 1, "v"])
+                if "ll" in v:
+                    structs += [["ll", 0, "v"], ["ll", 1, "v"]]
+                    if v.get("empty"):
+                        c = copy.deepcopy(plan)
+                        at(c["dicts"][di], path)[name]["val"]["empty"] = False
+                        yield c
+                for sp in structs:
+                    st = at(v, sp)
+                    if st.get("t") != "obs":
+                        c = copy.deepcopy(plan)
+                        tgt = at(at(c["dicts"][di], path)[name]["val"], sp)
+                        tgt.clear()
+                        tgt.update({"t": "obs", "layout": copy.deepcopy(st["layout"]), "seed": st["seed"], "tag": 0})
+                        yield c
+                    lay = st.get("layout", {})
+                    if len(lay.get("chains", [])) > 1:
+                        for ci in range(len(lay["chains"])):
+                            c = copy.deepcopy(plan)
+                            del at(at(c["dicts"][di], path)[name]["val"], sp)["layout"]["chains"][ci]
+                            yield c
+                    for k, val in (("cov", None), ("zero_cov", None), ("mag", 1.0), ("reweighted", False), ("nonlinear", False)):
+                        if lay.get(k) != val:
+                            c = copy.deepcopy(plan)
+                            at(at(c["dicts"][di], path)[name]["val"], sp)["layout"][k] = val
+                            yield c
     yield from shrinkers.simplify_ops(plan, drop_keys=("fault",), set_values=(("where", "session"), ("desc", ""), ("indent", 1), ("gm_first", False)))
